@@ -771,11 +771,13 @@ class ProtoClassMetadata:
         "field_name_by_number",
         "meta_by_field_name",
         "sorted_field_names",
+        "field_name_by_key",
     )
 
     oneof_group_by_field: Dict[str, str]
     oneof_field_by_group: Dict[str, Set[dataclasses.Field]]
     field_name_by_number: Dict[int, str]
+    field_name_by_key: Dict[str, str]
     meta_by_field_name: Dict[str, FieldMetadata]
     sorted_field_names: Tuple[str, ...]
     default_gen: Dict[str, Callable[[], Any]]
@@ -809,6 +811,14 @@ class ProtoClassMetadata:
         )
         self.default_gen = self._get_default_gen(cls, fields)
         self.cls_by_field = self._get_cls_by_field(cls, fields)
+        # Keys under which a field may appear in a dict / JSON object: the keys
+        # to_dict() emits in either casing. Re-casing such a key with snake_case
+        # does not always give the field name back (`addressLine1`, `xYZ`).
+        by_key = {}
+        for name in by_field_name:
+            for casing in (camel_case, snake_case):
+                by_key.setdefault(casing(name).rstrip("_"), name)
+        self.field_name_by_key = by_key
 
     @staticmethod
     def _get_default_gen(
@@ -1698,6 +1708,8 @@ class Message(ABC):
         init_kwargs: Dict[str, Any] = {}
         for key, value in mapping.items():
             field_name = safe_snake_case(key)
+            if field_name not in cls._betterproto.meta_by_field_name:
+                field_name = cls._betterproto.field_name_by_key.get(key, field_name)
             try:
                 meta = cls._betterproto.meta_by_field_name[field_name]
             except KeyError:
@@ -1988,6 +2000,8 @@ class Message(ABC):
         self._serialized_on_wire = True
         for key in value:
             field_name = safe_snake_case(key)
+            if field_name not in self._betterproto.meta_by_field_name:
+                field_name = self._betterproto.field_name_by_key.get(key, field_name)
             meta = self._betterproto.meta_by_field_name.get(field_name)
             if not meta:
                 continue
